@@ -457,3 +457,395 @@ Proof.
   rewrite (on_keys_eq _ h d (Err KeyError) h (d_keys d)); [now rewrite mkD_eta|].
   apply mbind_err. apply (os_lookup_missing lower _ _ _ _ (dr_os _ _ _ R)). now apply afind_nodes_none.
 Qed.
+
+(** ** simulation of one reference step by one method call *)
+Definition d_sim {A} (h : heap) (d : dobj) (C : list cell) (m : M dst A) (f : A -> out) (x : op) : Prop :=
+  exists r h' d' C',
+    m (h, d) = (r, (h', d')) /\ d_rep h' d' C' /\ d_post h C h' C'
+    /\ s_step1 lower (its C) x = (out_of f r, its C').
+
+Lemma d_sim_pure {A} h d C (m : M dst A) f x (a : A) :
+  d_rep h d C -> m (h, d) = (Ok a, (h, d)) -> s_step1 lower (its C) x = (f a, its C) ->
+  d_sim h d C m f x.
+Proof. intros R E S. exists (Ok a), h, d, C. auto using d_post_refl. Qed.
+
+Lemma d_sim_fail {A} h d C (m : M dst A) f x e :
+  d_rep h d C -> m (h, d) = (Err e, (h, d)) -> s_step1 lower (its C) x = (RErr e, its C) ->
+  d_sim h d C m f x.
+Proof. intros R E S. exists (Err e), h, d, C. auto using d_post_refl. Qed.
+
+Lemma sim_get h d C o k : d_rep h d C -> d_sim h d C (d_getitem lower k) RStr (OGet o k).
+Proof.
+  intros R. pose proof (d_getitem_spec _ _ _ k R) as G. cbn [s_step1].
+  destruct (afind keyI (lower k) (its C)) as [[k' v]|] eqn:E.
+  - eapply d_sim_pure; eauto. cbn [s_step1]. now rewrite s_find_afind, E.
+  - eapply d_sim_fail; eauto. cbn [s_step1]. now rewrite s_find_afind, E.
+Qed.
+
+Lemma sim_contains h d C o k : d_rep h d C -> d_sim h d C (d_contains lower k) RBool (OContains o k).
+Proof.
+  intros R. eapply d_sim_pure; [exact R|apply (d_contains_spec _ _ _ k R)|].
+  cbn [s_step1]. now rewrite s_has_afind.
+Qed.
+
+Lemma sim_len h d C o : d_rep h d C -> d_sim h d C d_len RNat (OLen o).
+Proof. intros R. eapply d_sim_pure; [exact R|apply (d_len_spec _ _ _ R)|reflexivity]. Qed.
+
+Lemma sim_iter h d C o : d_rep h d C -> d_sim h d C d_iter RKeys (OIter o).
+Proof. intros R. eapply d_sim_pure; [exact R|apply (d_iter_spec _ _ _ R)|reflexivity]. Qed.
+
+Lemma sim_dump h d C o : d_rep h d C -> d_sim h d C (d_dump lower) RStr (ODump o).
+Proof. intros R. eapply d_sim_pure; [exact R|apply (d_dump_spec _ _ _ R)|reflexivity]. Qed.
+
+Lemma sim_set h d C o k v :
+  d_rep h d C -> validate_input v = Ok tt ->
+  d_sim h d C (d_setitem lower k v) (fun _ => RNone) (OSet o k v).
+Proof.
+  intros R Hv. destruct (d_setitem_ok _ _ _ k v R Hv) as [h' [d' [C' [E [R' [S P]]]]]].
+  exists (Ok tt), h', d', C'. split; [exact E|]. split; [exact R'|]. split; [exact P|].
+  cbn [s_step1 out_of]. now rewrite S.
+Qed.
+
+Lemma sim_del h d C o k : d_rep h d C -> d_sim h d C (d_delitem lower k) (fun _ => RNone) (ODel o k).
+Proof.
+  intros R. destruct (afind keyC (lower k) C) as [[i [k' v']]|] eqn:E.
+  - pose proof E as E0. apply afind_split in E. destruct E as [c1 [c2 [-> [Hk Hn]]]].
+    change (lower k' = lower k) in Hk.
+    destruct (d_delitem_found _ _ _ _ _ _ _ k R Hk) as [h' [d' [E1 [R1 P1]]]].
+    exists (Ok tt), h', d', (c1 ++ c2). split; [exact E1|]. split; [exact R1|]. split; [exact P1|].
+    cbn [s_step1 out_of]. rewrite s_has_afind, afind_its, E0. cbn [option_map is_some].
+    rewrite its_mid, its_app. cbn [snd]. rewrite s_remove_mid; [reflexivity|now apply afind_its_none|exact Hk].
+  - eapply d_sim_fail; [exact R|now apply (d_delitem_missing _ _ C)|].
+    cbn [s_step1]. now rewrite s_has_afind, (afind_its_none _ _ E).
+Qed.
+
+Lemma sim_first h d C o k : d_rep h d C -> d_sim h d C (d_order_first lower k) (fun _ => RNone) (OFirst o k).
+Proof.
+  intros R. destruct (afind keyC (lower k) C) as [[i [k' v']]|] eqn:E.
+  - pose proof E as E0. apply afind_split in E. destruct E as [c1 [c2 [-> [Hk Hn]]]].
+    change (lower k' = lower k) in Hk.
+    destruct (d_move _ _ _ _ _ _ [] (c1 ++ c2) k ll_insert_at_head R Hk eq_refl (reins_head _))
+      as [h' [d' [E1 [R1 P1]]]].
+    exists (Ok tt), h', d', ([] ++ (nxt h, (k', v')) :: c1 ++ c2).
+    split; [exact E1|]. split; [exact R1|]. split; [exact P1|].
+    cbn [s_step1 out_of]. rewrite s_find_afind, afind_its, E0. cbn [option_map app its map snd].
+    rewrite its_mid. cbn [snd]. rewrite s_remove_mid; [|now apply afind_its_none|exact Hk].
+    fold (its (c1 ++ c2)). now rewrite its_app.
+  - eapply d_sim_fail; [exact R|now apply (d_reorder_missing _ _ C)|].
+    cbn [s_step1]. now rewrite s_find_afind, (afind_its_none _ _ E).
+Qed.
+
+Lemma sim_last h d C o k : d_rep h d C -> d_sim h d C (d_order_last lower k) (fun _ => RNone) (OLast o k).
+Proof.
+  intros R. destruct (afind keyC (lower k) C) as [[i [k' v']]|] eqn:E.
+  - pose proof E as E0. apply afind_split in E. destruct E as [c1 [c2 [-> [Hk Hn]]]].
+    change (lower k' = lower k) in Hk.
+    destruct (d_move _ _ _ _ _ _ (c1 ++ c2) [] k ll_append R Hk (app_nil_r _) (reins_append _))
+      as [h' [d' [E1 [R1 P1]]]].
+    exists (Ok tt), h', d', ((c1 ++ c2) ++ [(nxt h, (k', v'))]).
+    split; [exact E1|]. split; [exact R1|]. split; [exact P1|].
+    cbn [s_step1 out_of]. rewrite s_find_afind, afind_its, E0. cbn [option_map snd].
+    rewrite its_mid. cbn [snd]. rewrite s_remove_mid; [|now apply afind_its_none|exact Hk].
+    now rewrite !its_app.
+  - eapply d_sim_fail; [exact R|now apply (d_reorder_missing _ _ C)|].
+    cbn [s_step1]. now rewrite s_find_afind, (afind_its_none _ _ E).
+Qed.
+
+Lemma os_lookup_spec h os L item :
+  os_rep lower h os L ->
+  os_lookup lower item (h, os)
+  = (match afind keyL (lower item) L with Some p => Ok (fst p) | None => Err KeyError end, (h, os)).
+Proof.
+  intros R. unfold os_lookup, mbind, get_table. cbn. rewrite (or_tbl _ _ _ _ R).
+  destruct (afind keyL (lower item) L); reflexivity.
+Qed.
+
+Lemma on_keys_ext {A} (m1 m2 : M sst A) h d :
+  m1 (h, d_keys d) = m2 (h, d_keys d) -> on_keys m1 (h, d) = on_keys m2 (h, d).
+Proof. intros E. unfold on_keys, zoom. cbn [fst snd]. now rewrite E. Qed.
+
+Lemma on_keys_err {A} (m : M sst A) h d e :
+  m (h, d_keys d) = (Err e, (h, d_keys d)) -> on_keys m (h, d) = (Err e, (h, d)).
+Proof. intros E. rewrite (on_keys_eq _ _ _ _ _ _ E). now rewrite mkD_eta. Qed.
+
+(** order_before / order_after share everything but the re-inserter and the
+    reference's insertion function *)
+Lemma sim_relative h d C k r (before : bool) :
+  d_rep h d C ->
+  let m := if before then d_order_before lower k r else d_order_after lower k r in
+  let ins := if before then s_insert_before lower else s_insert_after lower in
+  exists res h' d' C',
+    m (h, d) = (res, (h', d')) /\ d_rep h' d' C' /\ d_post h C h' C'
+    /\ (if same lower k r then (RErr ValueError, its C)
+        else match s_find lower k (its C), s_find lower r (its C) with
+             | Some p, Some _ => (RNone, ins p r (s_remove lower k (its C)))
+             | _, _ => (RErr KeyError, its C)
+             end) = (out_of (fun _ => RNone) res, its C').
+Proof.
+  intros R m ins. pose proof (d_rep_keys _ _ _ R) as K. pose proof (dr_os _ _ _ R) as RO.
+  unfold same. destruct (str_eqb (lower k) (lower r)) eqn:Esame.
+  - exists (Err ValueError), h, d, C. split.
+    { subst m. destruct before; unfold d_order_before, d_order_after, os_order_before, os_order_after;
+        rewrite Esame; now apply on_keys_err. }
+    auto using d_post_refl.
+  - rewrite !s_find_afind, !afind_its.
+    destruct (afind keyC (lower r) C) as [[ri [rk rv]]|] eqn:Er.
+    2:{ exists (Err KeyError), h, d, C. split.
+        { subst m. destruct before; unfold d_order_before, d_order_after, os_order_before, os_order_after;
+            rewrite Esame; apply on_keys_err; apply mbind_err;
+            rewrite (os_lookup_spec _ _ _ r RO), afind_nodes, Er; reflexivity. }
+        split; [exact R|]. split; [apply d_post_refl|].
+        destruct (afind keyC (lower k) C) as [[? [? ?]]|]; reflexivity. }
+    destruct (afind keyC (lower k) C) as [[i [k' v']]|] eqn:Ek.
+    2:{ exists (Err KeyError), h, d, C. split.
+        { subst m. destruct before; unfold d_order_before, d_order_after, os_order_before, os_order_after;
+            rewrite Esame; apply on_keys_err;
+            (rewrite (mbind_ok _ _ (h, d_keys d) ri (h, d_keys d));
+             [|rewrite (os_lookup_spec _ _ _ r RO), afind_nodes, Er; reflexivity]);
+            unfold os_reorder; apply mbind_err;
+            rewrite (os_lookup_spec _ _ _ k RO), afind_nodes, Ek; reflexivity. }
+        split; [exact R|]. split; [apply d_post_refl|reflexivity]. }
+    cbn [option_map snd].
+    apply afind_split in Ek. destruct Ek as [c1 [c2 [-> [Hk Hn]]]]. change (lower k' = lower k) in Hk.
+    rewrite (afind_mid keyC) in Er by exact K. change (keyC (i, (k', v'))) with (lower k') in Er.
+    rewrite Hk, str_eqb_sym, Esame in Er.
+    apply afind_split in Er. destruct Er as [a [b [Hab [Hr Hna]]]]. change (lower rk = lower r) in Hr.
+    assert (Elook : os_lookup lower r (h, d_keys d) = (Ok ri, (h, d_keys d))).
+    { rewrite (os_lookup_spec _ _ _ r RO), afind_nodes, (afind_mid keyC) by exact K.
+      change (keyC (i, (k', v'))) with (lower k'). rewrite Hk, str_eqb_sym, Esame, Hab.
+      rewrite (afind_mid keyC).
+      2:{ rewrite <- Hab. rewrite map_app in *. cbn [map] in K. now apply NoDup_remove_1 in K. }
+      change (keyC (ri, (rk, rv))) with (lower rk). rewrite Hr, str_eqb_refl. reflexivity. }
+    rewrite its_mid. cbn [snd]. rewrite s_remove_mid; [|now apply afind_its_none|exact Hk].
+    rewrite <- its_app, Hab, its_mid. cbn [snd].
+    destruct before; subst m ins; cbn iota.
+    + destruct (d_move _ _ _ _ _ _ a ((ri, (rk, rv)) :: b) k (fun x => ll_insert_before x ri) R Hk
+                  (eq_sym Hab) (reins_before _ _ _ _)) as [h' [d' [E1 [R1 P1]]]].
+      exists (Ok tt), h', d', (a ++ (nxt h, (k', v')) :: (ri, (rk, rv)) :: b).
+      split.
+      { rewrite <- E1. unfold d_order_before. apply on_keys_ext. unfold os_order_before.
+        rewrite Esame. now rewrite (mbind_ok _ _ _ _ _ Elook). }
+      split; [exact R1|]. split; [exact P1|].
+      rewrite s_insert_before_mid; [|now apply afind_its_none|exact Hr].
+      cbn [out_of]. now rewrite its_mid.
+    + destruct (d_move _ _ _ _ _ _ (a ++ [(ri, (rk, rv))]) b k (fun x => ll_insert_after x ri) R Hk)
+        as [h' [d' [E1 [R1 P1]]]].
+      { rewrite <- app_assoc. now symmetry. }
+      { rewrite nodes_app. apply reins_after. }
+      exists (Ok tt), h', d', ((a ++ [(ri, (rk, rv))]) ++ (nxt h, (k', v')) :: b).
+      split.
+      { rewrite <- E1. unfold d_order_after. apply on_keys_ext. unfold os_order_after.
+        rewrite Esame. now rewrite (mbind_ok _ _ _ _ _ Elook). }
+      split; [exact R1|]. split; [exact P1|].
+      rewrite s_insert_after_mid; [|now apply afind_its_none|exact Hr].
+      cbn [out_of]. rewrite its_mid, its_app, <- app_assoc. reflexivity.
+Qed.
+
+Lemma sim_before h d C o k r :
+  d_rep h d C -> d_sim h d C (d_order_before lower k r) (fun _ => RNone) (OBefore o k r).
+Proof.
+  intros R. destruct (sim_relative h d C k r true R) as [res [h' [d' [C' [E [R' [P S]]]]]]].
+  exists res, h', d', C'. auto.
+Qed.
+
+Lemma sim_after h d C o k r :
+  d_rep h d C -> d_sim h d C (d_order_after lower k r) (fun _ => RNone) (OAfter o k r).
+Proof.
+  intros R. destruct (sim_relative h d C k r false R) as [res [h' [d' [C' [E [R' [P S]]]]]]].
+  exists res, h', d', C'. auto.
+Qed.
+
+(** ** sort_fields *)
+Lemma combine_fst_snd {X Y} (l : list (X * Y)) : combine (map fst l) (map snd l) = l.
+Proof. induction l as [|[x y] l IH]; cbn; [reflexivity|]. now rewrite IH. Qed.
+
+Lemma nodes_combine (is : list id) (vs : items) :
+  nodes (combine is vs) = combine is (map fst vs).
+Proof.
+  revert vs. induction is as [|i is IH]; intros [|v vs]; cbn; try reflexivity. now rewrite <- IH.
+Qed.
+
+Lemma its_combine (is : list id) (vs : items) :
+  length is = length vs -> its (combine is vs) = vs.
+Proof.
+  revert vs. induction is as [|i is IH]; intros [|v vs]; cbn; intros H; try reflexivity; try discriminate.
+  f_equal. apply IH. lia.
+Qed.
+
+Lemma cids_combine (is : list id) (vs : items) :
+  length is = length vs -> cids (combine is vs) = is.
+Proof.
+  revert vs. induction is as [|i is IH]; intros [|v vs]; cbn; intros H; try reflexivity; try discriminate.
+  f_equal. apply IH. lia.
+Qed.
+
+Lemma d_sort_spec h d C :
+  d_rep h d C ->
+  exists h' d' C',
+    d_sort_fields lower (h, d) = (Ok tt, (h', d'))
+    /\ d_rep h' d' C' /\ d_post h C h' C' /\ its C' = sort_by keyI (its C).
+Proof.
+  intros R. pose proof (d_rep_keys _ _ _ R) as K. rewrite <- keys_its in K. pose proof R as [RO V N Va].
+  set (ks := map fst (its C)).
+  assert (Hsorted : sort_by lower ks = map fst (sort_by keyI (its C))).
+  { unfold ks. now rewrite sort_by_map. }
+  assert (Hnd : NoDup (map keyL [] ++ map lower (sort_by lower ks))).
+  { cbn [map app]. eapply Permutation_NoDup; [|exact K].
+    replace (map keyI (its C)) with (map lower ks) by (unfold ks; rewrite map_map; reflexivity).
+    apply Permutation_map. symmetry. apply sort_by_perm. }
+  destruct (os_extend_spec lower (sort_by lower ks) h os_empty [] (os_rep_empty lower h) Hnd)
+    as [h' [set' [L2 [E [R2 [M2 [F2 B2]]]]]]].
+  cbn [app] in R2.
+  assert (Hlen : length (map fst L2) = length (sort_by keyI (its C))).
+  { rewrite map_length. rewrite <- (map_length snd L2), M2, Hsorted. now rewrite map_length. }
+  exists h', (mkD set' (d_vals d)), (combine (map fst L2) (sort_by keyI (its C))).
+  split.
+  { unfold d_sort_fields. rewrite (mbind_ok _ _ _ _ _ (d_iter_spec _ _ _ R)). cbn [fst snd].
+    fold ks. rewrite E. reflexivity. }
+  split; [|split].
+  - constructor; cbn [d_keys d_vals].
+    + rewrite nodes_combine, <- Hsorted, <- M2, combine_fst_snd. exact R2.
+    + intros kl. rewrite V, its_combine by exact Hlen. f_equal.
+      apply afind_perm; [exact K|]. symmetry. apply sort_by_perm.
+    + exact N.
+    + rewrite its_combine by exact Hlen. eapply Permutation_Forall; [|exact Va]. symmetry. apply sort_by_perm.
+  - split.
+    + eapply hframe_weaken; [exact F2|]. intros j [].
+    + intros j Hj. right. rewrite cids_combine in Hj by exact Hlen. now apply B2.
+  - now apply its_combine.
+Qed.
+
+Lemma sim_sort h d C o : d_rep h d C -> d_sim h d C (d_sort_fields lower) (fun _ => RNone) (OSort o).
+Proof.
+  intros R. destruct (d_sort_spec _ _ _ R) as [h' [d' [C' [E [R' [P S]]]]]].
+  exists (Ok tt), h', d', C'. split; [exact E|]. split; [exact R'|]. split; [exact P|].
+  cbn [s_step1 out_of]. now rewrite S.
+Qed.
+
+(** ** update from a list of pairs (constructor from a dict, parser) *)
+Lemma d_update_spec l : forall h d C,
+  d_rep h d C -> Forall valid_kv l ->
+  exists h' d' C',
+    d_update lower l (h, d) = (Ok tt, (h', d'))
+    /\ d_rep h' d' C' /\ d_post h C h' C'
+    /\ its C' = fold_left (fun d kv => s_set lower (fst kv) (snd kv) d) l (its C).
+Proof.
+  induction l as [|[k v] l IH]; intros h d C R Hv.
+  - exists h, d, C. split; [reflexivity|]. auto using d_post_refl.
+  - inversion Hv as [|? ? Hv1 Hv2]; subst.
+    destruct (d_setitem_ok _ _ _ k v R Hv1) as [h1 [d1 [C1 [E1 [R1 [S1 P1]]]]]].
+    destruct (IH _ _ _ R1 Hv2) as [h2 [d2 [C2 [E2 [R2 [P2 S2]]]]]].
+    exists h2, d2, C2. split.
+    { cbn [d_update]. rewrite (mbind_ok _ _ _ _ _ E1). exact E2. }
+    split; [exact R2|]. split.
+    + destruct P1 as [F1 I1], P2 as [F2 I2]. split.
+      * eapply hframe_trans; [exact F1|exact F2|]. intros j Hj Hin.
+        destruct (I1 j Hin) as [H|H]; [exact H|lia].
+      * intros j Hj. destruct (I2 j Hj) as [H|H].
+        -- destruct (I1 j H) as [H'|H']; [now left|now right].
+        -- right. destruct F1 as [N1 _]. lia.
+    + cbn [fold_left fst snd]. now rewrite S2, S1.
+Qed.
+
+(** ** copy(): the source list is walked in the shared heap while the copy grows *)
+Lemma first_id_nodes_cons i kv (rest : list cell) :
+  first_id (nodes ((i, kv) :: rest)) None = Some i.
+Proof. reflexivity. Qed.
+
+Lemma copy_loop_spec src (Cs : list cell) (b0 : positive) : forall (rest p : list cell) fuel h d Cd,
+  Cs = p ++ rest -> d_rep h src Cs -> d_rep h d Cd -> its Cd = its p ->
+  (forall j, In j (cids Cd) -> (b0 <= j)%positive) ->
+  (forall j, In j (cids Cs) -> (j < b0)%positive) ->
+  (b0 <= nxt h)%positive ->
+  length rest <= fuel ->
+  exists h' d' Cd',
+    copy_loop lower fuel src (first_id (nodes rest) None) (h, d) = (Ok tt, (h', d'))
+    /\ d_rep h' d' Cd' /\ its Cd' = its Cs
+    /\ hframe h (cids Cd) h'
+    /\ (forall j, In j (cids Cd') -> (b0 <= j)%positive).
+Proof.
+  induction rest as [|[i [k v]] rest IH]; intros p fuel h d Cd HCs Rs Rd Hits Hnew Hold Hb0 Hfuel.
+  - exists h, d, Cd. rewrite app_nil_r in HCs. subst p.
+    split; [destruct fuel; reflexivity|]. split; [exact Rd|]. split; [exact Hits|].
+    split; [apply hframe_refl|exact Hnew].
+  - destruct fuel as [|f]; [cbn in Hfuel; lia|].
+    rewrite first_id_nodes_cons. cbn [copy_loop].
+    pose proof (d_rep_keys _ _ _ Rs) as K.
+    assert (Hin : In i (cids Cs)).
+    { rewrite HCs, cids_mid. apply in_app_iff. right. now left. }
+    (* the source node *)
+    assert (Hi : hget h i = Some (mkNode (last_id (nodes p) None) (first_id (nodes rest) None) k)).
+    { pose proof (lr_seg _ _ _ (or_ll _ _ _ _ (dr_os _ _ _ Rs))) as Sg.
+      rewrite HCs, nodes_mid in Sg. apply seg_mid in Sg. exact Sg. }
+    rewrite (mbind_ok _ _ (h, d) (mkNode (last_id (nodes p) None) (first_id (nodes rest) None) k) (h, d)).
+    2:{ unfold zoom. cbn [fst snd]. now rewrite (load_ok _ _ _ Hi). }
+    cbn [n_value].
+    (* its value in the source *)
+    assert (Ev : afind keyI (lower k) (its Cs) = Some (k, v)).
+    { apply afind_iff; [rewrite keys_its; exact K|]. split; [|reflexivity].
+      rewrite HCs, its_mid. apply in_app_iff. right. now left. }
+    rewrite (mbind_ok _ _ (h, d) v (h, d)).
+    2:{ cbn [fst]. rewrite (d_getitem_spec _ _ _ k Rs), Ev. reflexivity. }
+    (* copy[k] = v *)
+    assert (Hv : validate_input v = Ok tt).
+    { pose proof (dr_valid _ _ _ Rs) as Va. rewrite HCs, its_mid in Va.
+      apply Forall_app in Va. destruct Va as [_ Va]. now inversion Va. }
+    destruct (d_setitem_ok _ _ _ k v Rd Hv) as [h1 [d1 [C1 [E1 [R1 [S1 [F1 I1]]]]]]].
+    rewrite (mbind_ok _ _ _ _ _ E1).
+    assert (Hdisj : forall j, In j (cids Cs) -> ~ In j (cids Cd)).
+    { intros j Hj Hjn. apply Hold in Hj. apply Hnew in Hjn. lia. }
+    assert (Rs1 : d_rep h1 src Cs) by (eapply d_rep_hframe; eauto).
+    assert (Hi1 : hget h1 i = hget h i).
+    { destruct F1 as [_ F1]. apply F1; [now apply (d_rep_bound _ _ _ Rs)|now apply Hdisj]. }
+    rewrite (mbind_ok _ _ (h1, d1) (mkNode (last_id (nodes p) None) (first_id (nodes rest) None) k) (h1, d1)).
+    2:{ unfold zoom. cbn [fst snd]. rewrite Hi in Hi1. now rewrite (load_ok _ _ _ Hi1). }
+    cbn [n_next].
+    assert (S1' : its C1 = its (p ++ [(i, (k, v))])).
+    { rewrite S1, Hits, its_app. apply s_set_absent.
+      rewrite HCs, <- keys_its, its_mid in K. now apply (nodup_none_left keyI) in K. }
+    assert (Hnew1 : forall j, In j (cids C1) -> (b0 <= j)%positive).
+    { intros j Hj. destruct (I1 j Hj) as [H|H]; [now apply Hnew|lia]. }
+    assert (Hb1 : (b0 <= nxt h1)%positive) by (destruct F1 as [N1 _]; lia).
+    destruct (IH (p ++ [(i, (k, v))]) f h1 d1 C1) as [h2 [d2 [C2 [E2 [R2 [S2 [F2 I2]]]]]]]; auto.
+    { rewrite <- app_assoc. exact HCs. }
+    { cbn in Hfuel. lia. }
+    exists h2, d2, C2. split; [exact E2|]. split; [exact R2|]. split; [exact S2|]. split; [|exact I2].
+    eapply hframe_trans; [exact F1|exact F2|]. intros j Hj Hjn.
+    destruct (I1 j Hjn) as [H|H]; [exact H|lia].
+Qed.
+
+Lemma d_copy_spec h src (Cs : list cell) :
+  d_rep h src Cs ->
+  exists h' d' C',
+    d_copy_into lower src (h, d_empty) = (Ok tt, (h', d'))
+    /\ d_rep h' d' C' /\ its C' = its Cs
+    /\ hframe h [] h' /\ (forall j, In j (cids C') -> (nxt h <= j)%positive).
+Proof.
+  intros Rs.
+  destruct (copy_loop_spec src Cs (nxt h) Cs [] (walk_fuel h) h d_empty []) as [h' [d' [C' [E [R' [S [F I]]]]]]];
+    auto using d_rep_empty.
+  - intros j [].
+  - apply (d_rep_bound _ _ _ Rs).
+  - lia.
+  - unfold walk_fuel. pose proof (pigeon (cids Cs) (nxt h) (d_rep_nodup _ _ _ Rs) (d_rep_bound _ _ _ Rs)) as Hp.
+    unfold cids in Hp. rewrite map_length in Hp. apply Nat.lt_le_incl. exact Hp.
+  - exists h', d', C'. split; [|auto].
+    unfold d_copy_into. cbn [fst].
+    rewrite (lr_head _ _ _ (or_ll _ _ _ _ (dr_os _ _ _ Rs))). rewrite E. reflexivity.
+Qed.
+
+(** ** the full view recorded by the harness *)
+Lemma obj_view_spec alphabet w d C :
+  d_rep (w_heap w) d C -> obj_view lower alphabet w d = Ok (s_view lower alphabet (its C)).
+Proof.
+  intros R. unfold obj_view.
+  rewrite (d_items_spec _ _ _ R), (d_len_spec _ _ _ R), (d_dump_spec _ _ _ R). cbn [fst bind].
+  unfold s_view. do 2 f_equal. apply map_ext. intros k.
+  unfold t_mem. rewrite (or_tbl _ _ _ _ (dr_os _ _ _ R)), afind_nodes, s_has_afind, afind_its.
+  destruct (afind keyC (lower k) C); reflexivity.
+Qed.
+
+Lemma obj_items_spec w d C : d_rep (w_heap w) d C -> obj_items lower w d = Ok (its C).
+Proof. intros R. unfold obj_items. now rewrite (d_items_spec _ _ _ R). Qed.
+
+End WithLower.
